@@ -1,6 +1,7 @@
 import DymVerif.Driver.Common
 import DymVerif.Base.Dec
 import DymVerif.Model.Lockup
+import DymVerif.Model.LockupChain
 /-
   Driver/C14 — line protocol over M-Lockup.
 
@@ -12,11 +13,17 @@ import DymVerif.Model.Lockup
     force <a> <id> (- | <d> <amt>)
     begin <dt>
     end
+    restart                             (ExportGenesis -> InitGenesis on a fresh application: `Lockup.restart`)
+    setparams <minDur> <fee> <allowed a,b|->   (params subspace: `Lockup.setParams`)
 
-  Observation = `<out> L=… last=… M=… B=… Q=… A=… S=… W=… O=… U=… t=… h=…` (see `render`):
+  Every op goes through `Lockup.cstep` (Model/LockupChain): the parameters are part of the state.
+
+  Observation = `<out> L=… last=… M=… B=… Q=… A=… S=… W=… O=… U=… t=… h=… P=… G=… I=…` (see `render`):
   locks (by-id queries), last id, module balances, actor balances, lock ids by account, accumulation
   at the probe durations, Σ locks per denom, Σ locks per denom with duration >= probe, Σ locks per
-  owner and denom, ids of the locks that are due now.
+  owner and denom, ids of the locks that are due now, the parameters in force
+  (minDur:fee:allow-list), the ids of `GetPeriodLocks` in reference-walk order (`exportGenesis`),
+  the ids the end-time iterator of the EndBlocker yields.
 -/
 namespace DymVerif.Driver.C14
 open DymVerif DymVerif.Driver DymVerif.Lockup
@@ -69,7 +76,11 @@ def render (x : St) (o : Out) : String :=
   let W := join ";" (dens.map (fun d => join "," (x.probes.map (fun k => toString (lockedLonger s.locks d k)))))
   let O := join ";" (acts.map (fun a => join "," (dens.map (fun d => toString (lockedOwner s.locks a d)))))
   let U := join "." ((s.locks.filter (matured s.now)).map (fun l => toString l.id))
-  s!"{outStr o} L={L} last={s.lastId} M={M} B={B} Q={Q} A={A} S={S} W={W} O={O} U={U} t={s.now} h={s.height}"
+  let P := s!"{x.p.minDur}:{x.p.fee}:{join "," (x.p.allowed.map toString)}"
+  -- `GetPeriodLocks` in the order it returns (= the exported genesis), the EndBlocker's iterator
+  let G := join "." ((exportGenesis s).locks.map (fun l => toString l.id))
+  let I := join "." ((s.locks.filter (matured s.now)).map (fun l => toString l.id))
+  s!"{outStr o} L={L} last={s.lastId} M={M} B={B} Q={Q} A={A} S={S} W={W} O={O} U={U} t={s.now} h={s.height} P={P} G={G} I={I}"
 
 def coinArg (f : List String) : Option (Option (Denom × Nat)) :=
   match f with
@@ -77,16 +88,18 @@ def coinArg (f : List String) : Option (Option (Denom × Nat)) :=
   | [d, x] => some (some (nat! d, natClamp x))
   | _ => none
 
-def apply (x : St) (op : Op) : St × String :=
-  let r := step x.p x.s op
-  let x' := { x with s := r.1 }
+def applyC (x : St) (op : COp) : St × String :=
+  let r := cstep ⟨x.p, x.s⟩ op
+  let x' := { x with p := r.1.p, s := r.1.s }
   (x', render x' r.2)
+
+def apply (x : St) (op : Op) : St × String := applyC x (.msg op)
 
 def stepLine (x : St) (f : List String) : St × String :=
   match f with
   | ["reset", md, fee, al, nA, nD, fd, pr] =>
-      let x' : St := { p := ⟨nat! md, nat! fee, csvNats al, nat! fd⟩, s := init (fun _ _ => 0) 0 1,
-                       nA := nat! nA, nD := nat! nD, probes := csvNats pr }
+      let c := cinit ⟨nat! md, nat! fee, csvNats al, nat! fd⟩ (fun _ _ => 0) 0 1
+      let x' : St := { p := c.p, s := c.s, nA := nat! nA, nD := nat! nD, probes := csvNats pr }
       (x', "ok")
   | ["fund", a, d, amt] =>
       let s := x.s
@@ -104,6 +117,8 @@ def stepLine (x : St) (f : List String) : St × String :=
       | none => (x, "bad-op")
   | ["begin", dt] => apply x (.beginBlock (nat! dt))
   | ["end"] => apply x .endBlock
+  | ["restart"] => applyC x .restart
+  | ["setparams", md, fee, al] => applyC x (.setParams (nat! md) (nat! fee) (csvNats al))
   | _ => (x, "bad-op")
 
 def drv : Drv := { σ := St, init := st0, step := stepLine }
